@@ -48,27 +48,53 @@ func calls(m *sync2.Map[int, int], v any) []Call {
 	return out
 }
 
+// world is one fresh object under test plus the ways to call, project and read it back.
+type world struct {
+	calls func(v any) []Call
+	snap  func(s *Sched, e M) M // add the projected internal state (fine traces); may be nil
+	final func() []M            // sequential read-back after quiescence, as "final" events
+}
+
 func driveSyncMap(plan []M, out *Out, _ []string) {
+	driveWorld(plan, out, func(p M) *world {
+		m := &sync2.Map[int, int]{}
+		keys := ints(p, "keys")
+		return &world{
+			calls: func(v any) []Call { return calls(m, v) },
+			snap: func(s *Sched, e M) M {
+				sn := sync2.VerifSnapshot(m, keys, func(v int) int { return v })
+				e["r"], e["d"], e["am"], e["dn"], e["ms"], e["mu"] = nz(sn.R), nz(sn.D), sn.Amended, sn.DirtyNil, sn.Misses, s.MutexOwner(sync2.VerifMapMutex(m))
+				return e
+			},
+			final: func() []M {
+				evs := []M{}
+				for _, k := range keys {
+					v, ok := m.Load(k)
+					evs = append(evs, M{"ev": "final", "op": "Load", "k": k, "rv": v, "rok": ok})
+				}
+				rep := []int{}
+				m.Range(func(k, v int) bool { rep = append(rep, k, v); return true })
+				return append(evs, M{"ev": "final", "op": "Range", "k": 0, "rv": 0, "rok": false, "rep": rep})
+			},
+		}
+	})
+}
+
+func driveWorld(plan []M, out *Out, mk func(p M) *world) {
 	seen := map[string]bool{} // identical histories are reported once (a projection, not a judgement)
 	total, dup := 0, 0
 	defer func() { out.Emit(M{"ev": "summary", "executions": total, "duplicate_histories": dup}) }()
 	for pi, p := range plan {
 		mode, maxN, fine := str(p, "mode"), num(p, "n"), num(p, "fine")
-		keys := ints(p, "keys")
 		rng := rand.New(rand.NewSource(int64(num(p, "seed"))))
 		var prefix []int
 		if mode == "schedule" {
 			prefix = ints(p, "schedule")
 		}
 		for ex := 0; maxN == 0 || ex < maxN; ex++ {
-			m := &sync2.Map[int, int]{}
+			w := mk(p)
 			s := NewSched()
-			emitFine := ex < fine
-			snap := func(e M) M {
-				sn := sync2.VerifSnapshot(m, keys, func(v int) int { return v })
-				e["r"], e["d"], e["am"], e["dn"], e["ms"], e["mu"] = nz(sn.R), nz(sn.D), sn.Amended, sn.DirtyNil, sn.Misses, s.MutexOwner(sync2.VerifMapMutex(m))
-				return e
-			}
+			emitFine := ex < fine && w.snap != nil
 			var evs []M
 			free := false
 			emit := func(e M) {
@@ -76,14 +102,14 @@ func driveSyncMap(plan []M, out *Out, _ []string) {
 					free = true
 				}
 				if !free && emitFine {
-					e = snap(e)
+					e = w.snap(s, e)
 				}
 				evs = append(evs, e)
 			}
 			emit(M{"ev": "reset", "plan": pi, "ex": ex, "t": 0, "site": "", "to": ""})
 			choose := boundedChooser(mode, prefix, rng, num(p, "preempt"))
 			var info ExecInfo
-			setup := calls(m, p["setup"])
+			setup := w.calls(p["setup"])
 			if len(setup) > 0 {
 				var si ExecInfo
 				s.RunThreads([]int{9}, [][]Call{setup}, func(n int, _ bool) (int, int) { return 0, n }, emit, &si)
@@ -96,7 +122,7 @@ func driveSyncMap(plan []M, out *Out, _ []string) {
 				progs := [][]Call{}
 				ids := []int{}
 				for i, x := range pl {
-					progs = append(progs, calls(m, x))
+					progs = append(progs, w.calls(x))
 					ids = append(ids, i+1)
 				}
 				free0 := info.Free
@@ -108,25 +134,27 @@ func driveSyncMap(plan []M, out *Out, _ []string) {
 				s2.RunThreads(ids, progs, choose, emit, &info)
 			}
 			// final sequential read-back after quiescence: Load of every key and a Range
-			if !info.Deadlock {
-				for _, k := range keys {
-					v, ok := m.Load(k)
-					evs = append(evs, M{"ev": "final", "op": "Load", "k": k, "rv": v, "rok": ok})
-				}
-				rep := []int{}
-				m.Range(func(k, v int) bool { rep = append(rep, k, v); return true })
-				evs = append(evs, M{"ev": "final", "op": "Range", "k": 0, "rv": 0, "rok": false, "rep": rep})
+			if !info.Deadlock && w.final != nil {
+				evs = append(evs, w.final()...)
 			}
 			// one compact history line per execution; the fine trace only where asked for
 			h := []M{}
 			for _, e := range evs {
 				switch {
 				case e["ev"] == "inv":
-					h = append(h, M{"ev": "inv", "t": e["t"], "op": e["op"], "k": e["k"], "v": e["v"]})
+					x := M{"ev": "inv", "t": e["t"], "op": e["op"], "k": e["k"], "v": e["v"]}
+					if sv, ok := e["s"]; ok {
+						x["s"] = sv
+					}
+					h = append(h, x)
 				case e["ev"] == "ret", e["ev"] == "step" && e["to"] == "idle":
 					h = append(h, M{"ev": "ret", "t": e["t"], "rv": e["rv"], "rok": e["rok"], "rep": e["rep"]})
 				case e["ev"] == "final":
-					h = append(h, M{"ev": "inv", "t": 9, "op": e["op"], "k": e["k"], "v": 0})
+					x := M{"ev": "inv", "t": 9, "op": e["op"], "k": e["k"], "v": 0}
+					if sv, ok := e["s"]; ok {
+						x["s"] = sv
+					}
+					h = append(h, x)
 					rp := e["rep"]
 					if rp == nil {
 						rp = []int{}
